@@ -11,7 +11,7 @@ import time
 
 ROOT = os.path.dirname(os.path.dirname(os.path.abspath(__file__)))
 LEAN = os.path.join(ROOT, "lean")
-REPO = os.environ.get("QEXPY_REPO", "/repo")
+REPO = os.environ.get("QEXPY_REPO") or "/repo"
 DRIVER = os.path.join(LEAN, ".lake", "build", "bin", "driver")
 LOCK = os.path.join(ROOT, ".lake.lock")
 STD_AXIOMS = {"propext", "Classical.choice", "Quot.sound"}
